@@ -1,4 +1,5 @@
 import OdmlModel.Model.Card
+import OdmlModel.Model.CardObj
 import Driver.Util
 import Driver.Loop
 open Lean Drv
@@ -47,6 +48,20 @@ def decCard (j : Json) : Except String Card :=
     pure (some (← f a, ← f b))
   | _ => throw "bad card"
 
+/-- A stored bound as the object it is: `null`, a number (exact int), `true` / `false` (a bool). -/
+def encPyBound : PyBound → Json
+  | .nul => Json.null
+  | .int i => jint i
+  | .bool b => Json.bool b
+
+def encObjCard : ObjCard → Json
+  | none => Json.null
+  | some (a, b) => jarr [encPyBound a, encPyBound b]
+
+def encObjRes : ObjRes → Json
+  | .ok c => jobj [("ok", encObjCard c)]
+  | .valueError => jobj [("raised", "ValueError")]
+
 def encRes : Res → Json
   | .ok c => jobj [("ok", encCard c)]
   | .valueError => jobj [("raised", "ValueError")]
@@ -63,10 +78,25 @@ def handle (j : Json) : Except String Json := do
   | "set" =>
     let old ← decCard (← getVal j "old")
     let r := setCard old (← decIn (← getVal j "v"))
-    pure (jobj [("card", encCard r.1), ("ok", r.2)])
+    let v ← decIn (← getVal j "v")
+    -- "stored": the objects `format_cardinality` hands to the slot (exact ints, never bools)
+    pure (jobj [("card", encCard r.1), ("ok", r.2), ("stored", encObjRes (formatCardObj pyInt v)),
+                ("unbool", encObjRes (formatCardObj pyInt v.unbool))])
   | "issue" =>
     let c ← decCard (← getVal j "c")
     pure (encCause (cardIssue c (← getNat j "n")))
+  | "fmt_obj" => pure (encObjRes (formatCardObj pyInt (← decIn (← getVal j "v"))))
+  | "render_obj" =>
+    match ← getVal j "c" with
+    | .arr #[a, b] =>
+      let f : Json → Except String PyBound := fun x =>
+        match x with
+        | .null => pure .nul
+        | .bool t => pure (.bool t)
+        | .num n => pure (.int n.mantissa)
+        | _ => throw "bad bound"
+      pure (jchars (renderObjText (← f a, ← f b)))
+    | _ => throw "render_obj: pair expected"
   | "render" =>
     match ← decCard (← getVal j "c") with
     | some p => pure (jchars (renderCardText p))
